@@ -21,6 +21,7 @@ type c09Case struct {
 
 func c09Cfg() core.GenCfg {
 	c := c01Cfg()
+	c.Huge = false
 	c.RequiredBias = 55
 	c.MaxBytes = 2048
 	c.ContainerMax = 6
